@@ -14,5 +14,6 @@ rsync -a --exclude .git --exclude .build --exclude logs --exclude replay --exclu
 sed -i "s|=> /repo/go|=> $S/repo/go|" "$S/verif/harness/go.mod"
 cd "$S/verif" && VERIF_ROOT="$S/verif" VERIF_REPO="$S/repo" VERIF_SEED="${VERIF_SEED:-1}" ./check "$PROP" "$TIER"
 rc=$?
-echo "mutant_run: check exit=$rc"
+mkdir -p /verif/replay/mutant-last && rm -rf /verif/replay/mutant-last/* && cp -r "$S/verif/replay/." /verif/replay/mutant-last/ 2>/dev/null
+echo "mutant_run: check exit=$rc (replay files copied to /verif/replay/mutant-last)"
 exit $rc
